@@ -233,7 +233,7 @@ reg(Check("C19", "exploration",
           "{validators none, email+tel} x {login rewrite off,on} against a grammar-driven reference parser; rewriteTag: all tokens <=5 "
           "over a 10-symbol alphabet; normalizeTags: all lists <=3 from a 16-element menu x 2 limits; restricted-tag filters: all pairs "
           "of <=3-subsets of 9 tags x 4 namespace configurations. Sessions: breadth-first search to depth 3 (quick) / 5 (thorough) over "
-          "histories of 26 operations ({set tags} on 'me' and on an owned group with 10 tag lists incl. reserved tags dropped / added / "
+          "histories of 30 operations (account and group creation with untidy / reserved tags; {set tags} on 'me' and on an owned group with 10 tag lists incl. reserved tags dropped / added / "
           "beyond the count limit / clear; per-session 'fnd' queries set / cleared / private / read from two sessions of one user, leave and "
           "re-join; an account suspended, a topic deleted) through real sessions with immutable namespaces {basic,email} and masked {tel}. "
           "non-trivial = malformed or multi-term queries / rewritten tokens / multi-tag lists / canonical states",
